@@ -43,6 +43,12 @@ def resolve_callee(prog: Program, fi: FuncInfo, call: ast.Call, cls: ClassInfo |
             if m is not None and m.kind in ("method", "static", "class"):
                 return m, base
             return None
+        if isinstance(base, ast.Name) and cls is not None and fi.kind == "class" and base.id in _own_instances(fi):
+            # `obj = cls(...)` in an alternative constructor: obj._helper(...) is a method of the same class
+            m = prog.lookup_method(cls, f.attr)
+            if m is not None and m.kind == "method":
+                return m, base
+            return None
         d = dotted(base)
         if d:
             r = prog.resolve_dotted(fi.module, d)
@@ -63,6 +69,19 @@ def resolve_callee(prog: Program, fi: FuncInfo, call: ast.Call, cls: ClassInfo |
         if mod is not None and fn in mod.functions:
             return mod.functions[fn], None
     return None
+
+
+def _own_instances(fi: FuncInfo) -> set[str]:
+    out = set()
+    for n in walk_no_nested(fi.node):
+        if isinstance(n, ast.Assign) and len(n.targets) == 1 and isinstance(n.targets[0], ast.Name) and isinstance(n.value, ast.Call) \
+                and isinstance(n.value.func, ast.Name) and n.value.func.id == "cls":
+            out.add(n.targets[0].id)
+    # bound exactly once
+    for nm in list(out):
+        if sum(1 for n in ast.walk(fi.node) if isinstance(n, ast.Name) and n.id == nm and isinstance(n.ctx, ast.Store)) != 1:
+            out.discard(nm)
+    return out
 
 
 def _has_yield(fn: ast.FunctionDef) -> bool:
@@ -259,6 +278,8 @@ class Flattener:
         fn.body = propagate_aliases(fn.body)
         fn.body = collapse_temps(fn.body, fn)
         fn.body = canonical_accumulations(fn.body)
+        fn.body = propagate_aliases(fn.body)
+        fn.body = collapse_temps(fn.body, fn)
         fn = _CanonExpr().visit(fn)
         ast.fix_missing_locations(fn)
         return fn
@@ -667,9 +688,12 @@ def canonical_accumulations(stmts: list[ast.stmt]) -> list[ast.stmt]:
                     lp = stmts[i + 1]
                     body = _subst_leading_assigns(lp.body)
                     conds = []
-                    while len(body) == 1 and isinstance(body[0], ast.If) and not body[0].orelse:
-                        conds.append(body[0].test)
-                        body = _subst_leading_assigns(body[0].body)
+                    while True:
+                        g_ = _guarded_single(body)
+                        if g_ is None:
+                            break
+                        conds.append(g_[0])
+                        body = _subst_leading_assigns(g_[1])
                     if len(body) == 1 and isinstance(body[0], ast.Assign) and len(body[0].targets) == 1 and isinstance(body[0].targets[0], ast.Subscript) \
                             and isinstance(body[0].targets[0].value, ast.Name) and body[0].targets[0].value.id == tgt.id \
                             and tgt.id not in {n.id for n in ast.walk(body[0].value) if isinstance(n, ast.Name)}:
@@ -720,12 +744,36 @@ def _subst_leading_assigns(body: list[ast.stmt]) -> list[ast.stmt]:
     return body
 
 
+def _negate(test: ast.expr) -> ast.expr:
+    """logical negation in canonical form (`x is None` ↔ `x is not None`, `==` ↔ `!=`, `in` ↔ `not in`, `not e` ↔ `e`)"""
+    inv = {ast.Is: ast.IsNot, ast.IsNot: ast.Is, ast.Eq: ast.NotEq, ast.NotEq: ast.Eq, ast.In: ast.NotIn, ast.NotIn: ast.In}
+    if isinstance(test, ast.Compare) and len(test.ops) == 1 and type(test.ops[0]) in inv:
+        return ast.copy_location(ast.Compare(left=test.left, ops=[inv[type(test.ops[0])]()], comparators=test.comparators), test)
+    if isinstance(test, ast.UnaryOp) and isinstance(test.op, ast.Not):
+        return test.operand
+    return ast.copy_location(ast.UnaryOp(op=ast.Not(), operand=test), test)
+
+
+def _guarded_single(body):
+    """`if c: S` and `if c: pass else: S` (the shape an early `continue` takes once structured) as (condition, [S])"""
+    if len(body) == 1 and isinstance(body[0], ast.If):
+        st = body[0]
+        if not st.orelse:
+            return st.test, st.body
+        if all(isinstance(x, ast.Pass) for x in st.body):
+            return _negate(st.test), st.orelse
+    return None
+
+
 def _loop_to_comp(lp: ast.For, name: str, as_list: bool):
     body = _subst_leading_assigns(lp.body)
     conds = []
-    while len(body) == 1 and isinstance(body[0], ast.If) and not body[0].orelse:
-        conds.append(body[0].test)
-        body = _subst_leading_assigns(body[0].body)
+    while True:
+        g = _guarded_single(body)
+        if g is None:
+            break
+        conds.append(g[0])
+        body = _subst_leading_assigns(g[1])
     if len(body) != 1:
         return None
     s = body[0]
@@ -779,6 +827,13 @@ def collapse_temps(stmts: list[ast.stmt], scope: ast.AST) -> list[ast.stmt]:
 
 class _CanonExpr(ast.NodeTransformer):
     """expression-level canonical forms: `{k: v for k, v in it}` is `dict(it)`"""
+
+    def visit_UnaryOp(self, node):
+        self.generic_visit(node)
+        if isinstance(node.op, ast.Not) and isinstance(node.operand, ast.Compare) and len(node.operand.ops) == 1 \
+                and isinstance(node.operand.ops[0], (ast.Is, ast.IsNot, ast.In, ast.NotIn)):
+            return _negate(node.operand)
+        return node
 
     def visit_DictComp(self, node):
         self.generic_visit(node)
